@@ -2,7 +2,7 @@
 import json
 P=json.load(open('/verif/props.json'))['properties']
 notes={
-"C01":("proof","Lean theorem encMsg_eq_specEnc (model of the generated Encode = canonical specification encoder for every well-typed value of every schema) + spec round trip; regenerated writer/map tables and Go expressions; stream M: real Marshal vs model vs spec, reference parses the real bytes back to the same values and presence; encoder.go / wire.go append functions / Marshal translated statement by statement from the source and proved equal to the model (GoTieEncoder, GoTieWire)"),
+"C01":("proof","Lean theorem encMsg_eq_specEnc (model of the generated Encode = canonical specification encoder for every well-typed value of every schema) + spec round trip; regenerated writer/map tables and Go expressions; stream M: real Marshal vs model vs spec, reference parses the real bytes back to the same values and presence; encoder.go / wire.go append functions / Marshal translated statement by statement from the source and proved equal to the model (GoTieEncoder, GoTieWire); all 60 typed writers of encoder_types.go likewise (GoTieEncTypes.writeSingle_tie / writeRepeated_tie)"),
 "C02":("proof","specification decoder Spec.specDec (record at a time) with its laws; decoder refinement machine = spec; stream M: reference encodings closed under wire rewrites decoded by real code, model, spec and reference; decoder.go, message.go Unmarshal and the wire.go consume functions translated from the source and proved equal to the model (GoTieDecoder, GoTieWire): C02_source_unmarshal_is_spec; wire-equivalence laws proved on the specification: order independence (step commutation + permutation theorem, C02_order_independent), split sub-messages merge, packed = unpacked, non-minimal varints"),
 "C03":("proof","spec round trip theorem + T_enc + decoder refinement; stream M real round trip with deep comparison, maps in permuted orders; translated Marshal/Unmarshal = model (GoTieEncoder, GoTieApi)"),
 "C04":("proof","unmarshal_total: for every byte string, schema and start value the decoder model (every slice checked, every loop on fuel) returns ok: no panic, no out-of-fuel; store facts regenerated from source for input immutability; PARTIAL for stack/alloc/time; C04_source_unmarshal_total: the same for the statement-level translation of message.go+decoder.go (regenerated every run), C04_source_wire for the translated wire.go primitives"),
@@ -14,7 +14,7 @@ notes={
 "C10":("proof","unknown_skipped / unknown_captured / capture_exact on the specification; forward-compatibility chains sender -> narrow capturing schema -> wide schema on the real code; translated decoder.go (UnrecognizedFields, Loop) / ConsumeFieldValue = model"),
 "C11":("proof","map_table_expected: all 180 codecs have the one modelled shape (regenerated from picowire/map.go); generic map encode/decode theorems; stream M over all 180 instantiations"),
 "C12":("proof","the theorems of C01-C03,C06,C08 are stated for every supported schema (deep embedding of the emitted code); PARTIAL: the tie of that embedding to protoc-gen-pico is by running the working-tree generator on an exhaustive shape schema + sampled fresh schemas each run (terminates, compiles, deterministic, behaves as the model); generator_table_expected: the decision table of the working-tree protoc-gen-pico (every statement, field type, field order and mask it emits for the AllShapes schema) is regenerated on every run and pinned; the checked-in *.pico.go files are compared with a regeneration"),
-"C13":("proof","per-call theorems for readers (untouched on other field, consume exactly one field, sticky errors) and writers (closed forms, default omitted, nesting composes, absence leaves no trace) + regenerated 60-writer/30-reader tables; streams E, D, P; every Decoder/Encoder core method and wire primitive translated from the source and proved equal to its model (GoTie.D/E/W)"),
+"C13":("proof","per-call theorems for readers (untouched on other field, consume exactly one field, sticky errors) and writers (closed forms, default omitted, nesting composes, absence leaves no trace) + regenerated 60-writer/30-reader tables; streams E, D, P; every Decoder/Encoder core method and wire primitive translated from the source and proved equal to its model (GoTie.D/E/W); all 30 typed readers and 60 typed writers of decoder_types.go / encoder_types.go translated and proved equal to readSingle/readRepeated/writeSingle/writeRepeated for every kind (GoTie.DT, GoTie.ET)"),
 "C14":("proof","Int-level theorems with explicit int64/int32 wrap-around: split, round trip, exact saturation characterisation, timestamp normalisation; stream T vs durationpb/timestamppb; time package behaviour is a trusted parameter; picoconv/duration.go and timestamp.go translated from the source and proved equal to the model (GoTiePico: saturation logic = durDecode)"),
 "C15":("proof","universal theorems over BitVec 32 about the regenerated Go expressions: closed form, round trip, only +0 is default, for singular / packed / oneof (Always) variants; stream P/E/M; thorough tier sweeps all 2^32 on the Go side"),
 "C16":("proof","PARTIAL: schedule-independence theorem for threads with private state over a read-only store + regenerated facts (no package-level mutable state, no go statements, stores only through receivers/outputs); -race stress as the failing-schedule search; the scheduler theorem is instantiated with the translated Unmarshal / encoder programs (functions of their arguments by construction of the translation); stream R also decodes malformed inputs concurrently"),
